@@ -574,6 +574,20 @@ class VerusResult:
                 "slices_left_out_after_lost_anchor": self.skipped}
 
 
+_CLOSURE = re.compile(r"(?:(?<=[(,=\{;>])|(?<=return)|(?<=move))\s*(\|[^|{}();]*\|)(?!\|)")
+
+
+def unannotated_closures(ub):
+    """Number of closure expressions in the extracted (transformed) source text that carry no requires/ensures."""
+    n = 0
+    for p in ub.pieces():
+        for m in _CLOSURE.finditer(p.base):
+            after = p.base[m.end():m.end() + 200]
+            if not re.match(r"\s*(->\s*\([^)]*\)\s*)?\s*(requires|ensures)\b", after):
+                n += 1
+    return n
+
+
 def run_unit(recipe_mod, workdir):
     """recipe_mod.build() -> UnitBuild. Returns VerusResult."""
     name = recipe_mod.NAME
@@ -644,6 +658,16 @@ def run_unit(recipe_mod, workdir):
         r.hard = hard
         return r
     if r.failed:
+        # A closure of the source text without a specification is opaque to Verus (its result is arbitrary): an obligation
+        # that fails in a unit where such a closure APPEARED (more of them than on the tree the recipe was written for) may
+        # fail only because of that - undecided, never an alarm. Closures the recipe annotates are not counted.
+        extra = unannotated_closures(ub) - getattr(ub, "closures_ok", 0)
+        if extra > 0:
+            r.status = "undecided"
+            r.reason = ("%d closure(s) without a specification appeared in the extracted code (Verus cannot see their results); "
+                        "failing obligation(s) not reported: %s" % (extra, ", ".join(f["obligation"] for f in r.failed)[:200]))
+            r.failed = []
+            return r
         r.status = "failed"
         return r
     if rc == -9:
